@@ -6,7 +6,8 @@
      association list (given no id occurs twice) and keeps "no id twice".
    Together: a simulation [R] preserved by every operation, lifted to histories. *)
 From MptV Require Import Base.Mem C17.MessageModel C17.MessageSpec
-  C11.DispatchModel C11.DispatchSpec C11.DispatchLemmas C11.DispatchCompact C11.DispatchTable C11.DispatchEvent.
+  C11.DispatchModel C11.DispatchSpec C11.DispatchLemmas C11.DispatchCompact C11.DispatchTable C11.DispatchEvent
+  C11.DispatchAux.
 From Coq Require Import Permutation.
 Local Open Scope nat_scope.
 
@@ -46,7 +47,7 @@ Proof. intros [->| ->] _; destruct o; reflexivity. Qed.
 Lemma dstep0_abs d o : exists d' out lg,
   dstep0 d o = Ok (d', out, lg) /\ step_ok o d' out lg (sstep0 (abs d) o (advice d o)).
 Proof.
-  destruct o as [id|id|id h|id| |max|ev rsp|ev rsp|h|id| |]; unfold dstep0, sstep0, step_ok;
+  destruct o as [id|id|id h|id| |max|ev rsp|ev rsp|h|id| | | |x]; unfold dstep0, sstep0, step_ok;
     cbn [abs s_map s_fb s_def s_ctx s_next].
   - (* OSet *)
     pose proof (dispatch_set_reg (d_tbl d) id FUser (d_next d) (d_next d)) as H.
@@ -97,7 +98,10 @@ Proof.
       rewrite (proj2 (N.leb_le 1 id) Hr1), (proj2 (N.leb_le id (reserve_max max)) Hr2), Hl.
       destruct (N.eqb_spec max 0); [contradiction|]. cbn [andb negb is_some].
       split; [repeat split; exact P|]. split; [reflexivity|]. split; [reflexivity|discriminate].
-    + destruct H as [Ea Ee]. do 3 eexists. split; [reflexivity|]. cbn [a_id].
+    + destruct H as (Ea & Ee & Hx). do 3 eexists. split; [reflexivity|]. cbn [a_id].
+      assert (Ex : ((max =? 0)%N || ids_exhausted (entries (d_tbl d)) (reserve_max max)) = true).
+      { destruct Hx as [->|Hx]; [reflexivity|]. rewrite Hx. apply orb_true_r. }
+      rewrite Ex.
       split; [repeat split; cbn [abs s_map with_tbl d_tbl]; rewrite Ee; reflexivity|].
       split; [destruct t'; reflexivity|]. split; [reflexivity|discriminate].
   - (* OEmit *)
@@ -126,6 +130,19 @@ Proof.
       (split; [apply seqv_refl|]); (split; [reflexivity|]); (split; [|discriminate]).
     + rewrite fins_entries. reflexivity.
     + reflexivity.
+  - (* OArr *)
+    unfold advice. cbn [a_keep].
+    destruct (d_tbl d) as [tb|] eqn:Et.
+    + destruct (typed tb); cbn [negb]; do 3 eexists; (split; [reflexivity|]).
+      * split; [repeat split; cbn; reflexivity|]. split; [reflexivity|]. split; [|discriminate].
+        unfold entries, tslots. rewrite fins_entries. reflexivity.
+      * close_eq.
+    + do 3 eexists. split; [reflexivity|].
+      split; [repeat split; cbn; rewrite ?Et; reflexivity|].
+      split; [reflexivity|]. split; [reflexivity|discriminate].
+  - (* OAux *)
+    rewrite aux_refines. cbn [bind]. destruct (aux_spec x) as [r lg].
+    do 3 eexists. split; [reflexivity|]. close_eq.
 Qed.
 
 (* ---------------------------------------------------------------- stage 2 *)
@@ -244,19 +261,21 @@ Qed.
 
 Lemma sstep0_next s o a : s_next (fst (fst (sstep0 s o a))) = s_next s.
 Proof.
-  destruct o as [id|id|id h|id| |max|ev rsp|ev rsp|h|id| |]; unfold sstep0;
+  destruct o as [id|id|id h|id| |max|ev rsp|ev rsp|h|id| | | |x]; unfold sstep0;
     try (destruct (m_lookup (s_map s) id); reflexivity); try reflexivity.
   - destruct h; destruct (m_lookup (s_map s) id); reflexivity.
-  - destruct (a_id a); [destruct (_ && _)%bool|]; reflexivity.
+  - destruct (a_id a); [destruct (_ && _)%bool|destruct (_ || _)%bool]; reflexivity.
   - apply s_emit_next.
   - apply s_hash_next.
   - destruct (s_ctx s); reflexivity.
+  - destruct (a_keep a); reflexivity.
+  - destruct (aux_spec x); reflexivity.
 Qed.
 
 Lemma sstep0_perm s1 s2 o a : swf s1 -> seqv s1 s2 -> res_eqv (sstep0 s1 o a) (sstep0 s2 o a).
 Proof.
   intros W Q. pose proof Q as (P & Efb & Edef & Ectx & Enx).
-  destruct o as [id|id|id h|id| |max|ev rsp|ev rsp|h|id| |]; unfold sstep0;
+  destruct o as [id|id|id h|id| |max|ev rsp|ev rsp|h|id| | | |x]; unfold sstep0;
     try rewrite <- Enx; try rewrite <- (m_lookup_perm _ _ id P W).
   - destruct (m_lookup (s_map s1) id); (split; [|split; reflexivity]); [exact Q|].
     repeat split; try assumption. cbn. apply perm_skip. exact P.
@@ -266,7 +285,9 @@ Proof.
       repeat split; try assumption; cbn; try apply perm_skip; try apply m_remove_perm; assumption.
   - split; [exact Q|]. split; reflexivity.
   - split; [repeat split; try assumption; cbn; reflexivity|]. split; [reflexivity|]. apply fins_perm. exact P.
-  - destruct (a_id a) as [id|]; [|split; [exact Q|]; split; reflexivity].
+  - destruct (a_id a) as [id|].
+    2:{ rewrite <- (ids_exhausted_perm _ _ _ P W).
+        destruct (_ || _)%bool; (split; [exact Q|]; split; reflexivity). }
     rewrite <- (m_lookup_perm _ _ id P W).
     destruct ((1 <=? id)%N && (id <=? reserve_max max)%N && negb (max =? 0)%N
               && negb (is_some (m_lookup (s_map s1) id))); (split; [|split; reflexivity]); [|exact Q].
@@ -280,12 +301,15 @@ Proof.
     repeat split; assumption.
   - rewrite <- Efb, <- Ectx. split; [repeat split; try reflexivity; assumption|]. split; [reflexivity|].
     apply Permutation_app; [apply fins_perm; exact P|reflexivity].
+  - destruct (a_keep a); [split; [exact Q|]; split; reflexivity|].
+    split; [repeat split; try assumption; cbn; reflexivity|]. split; [reflexivity|]. apply fins_perm. exact P.
+  - destruct (aux_spec x). split; [exact Q|]. split; reflexivity.
 Qed.
 
 Lemma sstep0_wf s o a : swf s -> swf (fst (fst (sstep0 s o a))).
 Proof.
   unfold swf. intros W.
-  destruct o as [id|id|id h|id| |max|ev rsp|ev rsp|h|id| |]; unfold sstep0.
+  destruct o as [id|id|id h|id| |max|ev rsp|ev rsp|h|id| | | |x]; unfold sstep0.
   - destruct (m_lookup (s_map s) id) eqn:E; [exact W|]. cbn. constructor; [|exact W].
     apply m_lookup_none_notin. exact E.
   - destruct (m_lookup (s_map s) id); [|exact W]. cbn. apply m_remove_keys. exact W.
@@ -296,7 +320,7 @@ Proof.
     + apply m_remove_keys. exact W.
   - exact W.
   - constructor.
-  - destruct (a_id a) as [id|]; [|exact W].
+  - destruct (a_id a) as [id|]; [|destruct (_ || _)%bool; exact W].
     destruct (m_lookup (s_map s) id) eqn:E; cbn [is_some negb].
     + rewrite andb_false_r. exact W.
     + destruct ((1 <=? id)%N && (id <=? reserve_max max)%N && negb (max =? 0)%N && true); [|exact W].
@@ -307,6 +331,8 @@ Proof.
   - destruct (m_lookup (s_map s) id); exact W.
   - destruct (s_ctx s); exact W.
   - constructor.
+  - destruct (a_keep a); [exact W|constructor].
+  - destruct (aux_spec x); exact W.
 Qed.
 
 (* ---------------------------------------------------------------- one step, then histories *)
